@@ -44,13 +44,62 @@ func (st *ConcState) ListOf(v ssa.Value) ([]ssa.Value, bool) {
 	return l, ok
 }
 
-func (st *ConcState) setList(v ssa.Value, l []ssa.Value) *ConcState {
+func (st *ConcState) setList(v ssa.Value, l []ssa.Value, tags []string) *ConcState {
 	ns := st.clone()
 	if ns.lists == nil {
 		ns.lists = map[ssa.Value][]ssa.Value{}
 	}
 	ns.lists[v] = l
+	if tags != nil {
+		if ns.ltags == nil {
+			ns.ltags = map[ssa.Value][]string{}
+		}
+		ns.ltags[v] = tags
+	} else {
+		delete(ns.ltags, v)
+	}
 	return ns
+}
+
+// tagsOf: the tags of list key (one per element, "" where none), or nil.
+func (st *ConcState) tagsOf(key ssa.Value, n int) []string {
+	if t, ok := st.ltags[key]; ok && len(t) == n {
+		return t
+	}
+	return nil
+}
+
+func joinTags(a []string, na int, b []string, nb int) []string {
+	if a == nil && b == nil {
+		return nil
+	}
+	out := make([]string, 0, na+nb)
+	if a == nil {
+		a = make([]string, na)
+	}
+	if b == nil {
+		b = make([]string, nb)
+	}
+	return append(append(out, a...), b...)
+}
+
+// TagOf: what ElemTag said about the list element that v was loaded from (or about v itself when it was listed).
+func (st *ConcState) TagOf(v ssa.Value) string {
+	for k := 0; k < 12 && v != nil; k++ {
+		if t, ok := st.vtags[v]; ok {
+			return t
+		}
+		switch x := v.(type) {
+		case *ssa.ChangeType:
+			v = x.X
+			continue
+		case *ssa.MakeInterface:
+			v = x.X
+			continue
+		}
+		v = st.alias[v]
+	}
+	return ""
 }
 
 // now: what register v stands for at this moment (a register may be bound anew in a later loop round).
@@ -66,13 +115,13 @@ func listEffects(st *ConcState, in ssa.Instruction) *ConcState {
 	switch x := in.(type) {
 	case *ssa.MakeSlice:
 		if k, ok := st.eval(x.Len, 0); ok && k >= 0 && k <= maxListLen {
-			return st.setList(x, make([]ssa.Value, k))
+			return st.setList(x, make([]ssa.Value, k), nil)
 		}
 	case *ssa.Slice:
 		if _, isSl := types.Unalias(x.X.Type()).Underlying().(*types.Slice); !isSl || x.Max != nil {
 			return st
 		}
-		if _, l, ok := st.listOf(x.X); ok {
+		if key, l, ok := st.listOf(x.X); ok {
 			lo, hi := int64(0), int64(len(l))
 			if x.Low != nil {
 				k, known := st.eval(x.Low, 0)
@@ -91,24 +140,35 @@ func listEffects(st *ConcState, in ssa.Instruction) *ConcState {
 			if lo < 0 || hi < lo || hi > int64(len(l)) {
 				return st
 			}
-			return st.setList(x, append([]ssa.Value{}, l[lo:hi]...))
+			var tg []string
+			if t := st.tagsOf(key, len(l)); t != nil {
+				tg = append([]string{}, t[lo:hi]...)
+			}
+			return st.setList(x, append([]ssa.Value{}, l[lo:hi]...), tg)
 		}
 	case *ssa.Call:
 		if CallBuiltin(x) != "append" || len(x.Call.Args) != 2 {
 			return st
 		}
 		var base []ssa.Value
-		if _, l, ok := st.listOf(x.Call.Args[0]); ok {
-			base = l
+		var baseT, addT []string
+		if key, l, ok := st.listOf(x.Call.Args[0]); ok {
+			base, baseT = l, st.tagsOf(key, len(l))
 		} else if n, known := st.IsNil(x.Call.Args[0]); !(known && n) {
 			return st
 		}
 		var add []ssa.Value
-		if _, l, ok := st.listOf(x.Call.Args[1]); ok {
-			add = l
+		if key, l, ok := st.listOf(x.Call.Args[1]); ok {
+			add, addT = l, st.tagsOf(key, len(l))
 		} else if _, elems := appendParts(x); len(elems) > 0 {
 			for _, e := range elems {
 				add = append(add, st.now(e))
+				if st.cfg != nil && st.cfg.ElemTag != nil {
+					if addT == nil {
+						addT = make([]string, 0, len(elems))
+					}
+					addT = append(addT, st.cfg.ElemTag(st, e))
+				}
 			}
 		} else if n, known := st.IsNil(x.Call.Args[1]); !(known && n) {
 			return st
@@ -116,7 +176,7 @@ func listEffects(st *ConcState, in ssa.Instruction) *ConcState {
 		if len(base)+len(add) > maxListLen {
 			return st
 		}
-		return st.setList(x, append(append([]ssa.Value{}, base...), add...))
+		return st.setList(x, append(append([]ssa.Value{}, base...), add...), joinTags(baseT, len(base), addT, len(add)))
 	case *ssa.Store:
 		ia, ok := x.Addr.(*ssa.IndexAddr)
 		if !ok {
@@ -138,7 +198,16 @@ func listEffects(st *ConcState, in ssa.Instruction) *ConcState {
 		}
 		nl := append([]ssa.Value{}, l...)
 		nl[k] = st.now(x.Val)
-		return st.setList(key, nl)
+		tg := st.tagsOf(key, len(l))
+		if st.cfg != nil && st.cfg.ElemTag != nil {
+			if tg == nil {
+				tg = make([]string, len(l))
+			} else {
+				tg = append([]string{}, tg...)
+			}
+			tg[k] = st.cfg.ElemTag(st, x.Val)
+		}
+		return st.setList(key, nl, tg)
 	case *ssa.UnOp:
 		if x.Op != token.MUL {
 			return st
@@ -150,13 +219,21 @@ func listEffects(st *ConcState, in ssa.Instruction) *ConcState {
 		if _, isSl := types.Unalias(ia.X.Type()).Underlying().(*types.Slice); !isSl {
 			return st
 		}
-		_, l, has := st.listOf(ia.X)
+		key, l, has := st.listOf(ia.X)
 		if !has {
 			return st
 		}
 		if k, known := st.eval(ia.Index, 0); known && k >= 0 && k < int64(len(l)) && l[k] != nil {
 			ns := st.clone()
 			bind(ns, st, x, l[k])
+			if t := st.tagsOf(key, len(l)); t != nil && t[k] != "" {
+				if ns.vtags == nil {
+					ns.vtags = map[ssa.Value]string{}
+				}
+				ns.vtags[x] = t[k]
+			} else {
+				delete(ns.vtags, x)
+			}
 			return ns
 		}
 	}
